@@ -79,6 +79,9 @@ def judge(ctx, fl, sc, run, origin):
     if run is None:
         ctx.inconclusive("clock harness watchdog")
         return False
+    if run["status"] == 1014:
+        ctx.inconclusive("per-scenario wall-clock guard of the harness (SIGALRM)")
+        return False
     if run["status"] not in (0, 3):
         key, what = oracle.crash_key(run)
         ctx.violation(key, what + "\n  program: " + clockprog.to_text(sc, "w").replace("\n", " / "), w)
@@ -136,7 +139,8 @@ def directed():
     out.append(_sc([("h0", None, ["s:0.1", "x:1e9"])], hosts=[{"name": "h0", "speed": 1e9, "profile": [[0.45, 0.5]]}]))
     # minimal witness of the open finding C03:crash:kill-time-armed-on-actor-ending-in-the-same-round
     # (a1 wakes first and issues the call while a0 is still alive; a0 then wakes and ends in the same scheduling round)
-    out.append(_sc([("h0", None, ["s:1.0"]), ("h0", None, ["s:1.0", "k:0:3.0", "s:5.0"])]))
+    # (hooks flavour only: on the thread contexts of the asan leg the same defect makes the simulator hang instead of aborting)
+    out.append(dict(_sc([("h0", None, ["s:1.0"]), ("h0", None, ["s:1.0", "k:0:3.0", "s:5.0"])]), only="hooks"))
     # chained timers: the callback of a timer sets another one for the same date / 1e-12 later
     out.append(_sc([("h0", None, ["tr:0.1:c0:0.0", "t:0.2:c1:1e-12", "s:0.1", "tr:0.0:c2:0.0", "s:1.0"]), ("h0", 0.2, ["s:0.2", "s:1.0"])],
                    cfg={"cpu_optim": "TI"}))
@@ -165,7 +169,7 @@ def run(ctx):
     ctx.sample({"program": clockprog.to_text(gens[0][1], "g0")})
     jobs = int(os.environ.get("VERIF_JOBS", core.NCPU))
     err = []
-    asan_items = dirs + gens[:max(6, n // 15)]
+    asan_items = [d for d in dirs if d[1].get("only", "asan") == "asan"] + gens[:max(6, n // 15)]
 
     def asan_leg():
         try:
